@@ -35,6 +35,11 @@ func ZZ_C19_LateAnswers() {
 	vx.Assert("subscriber context created", err == nil && ue != nil)
 	vx.Config("diam.answerMayBeLate", true)
 	vx.Config("diam.answerMayBeLost", true)
+	// goroutines started by the code under test run as scheduled threads; during
+	// the first request timers may fire at any moment (slow peer), during the
+	// second the peer is prompt: a timer never beats an answer that will come
+	vx.Scheduler(2)
+	vx.Config("sched.timersFire", true)
 
 	peer := vx.Choice("peer", 2)
 	sub := &charging_datatype.SubscriptionId{SubscriptionIdType: charging_datatype.END_USER_IMSI, SubscriptionIdData: datatype.UTF8String(zzSupi[5:])}
@@ -48,9 +53,11 @@ func ZZ_C19_LateAnswers() {
 		n1 := vx.Uint32("reqnum")
 		_, err1 := abmf.SendAccountDebitRequest(ue, mk(n1))
 		_ = err1
+		vx.Tag("stale", len(ue.AcctChan) > 0)
 		vx.DeliverLateAnswers()
 		vx.Config("diam.answerMayBeLate", false)
 		vx.Config("diam.answerMayBeLost", false)
+		vx.Config("sched.timersFire", false)
 		rsp, err2 := abmf.SendAccountDebitRequest(ue, mk(n1+1))
 		vx.Assert("second credit-control request completes with an answer", err2 == nil && rsp != nil)
 		if err2 == nil && rsp != nil {
@@ -65,12 +72,19 @@ func ZZ_C19_LateAnswers() {
 	zzAccount(zzSupi, 2, 1000000, 3)
 	_, err1 := rating.SendServiceUsageRequest(ue, mk(1))
 	_ = err1
+	vx.Tag("stale", len(ue.RatingChan) > 0)
 	vx.DeliverLateAnswers()
 	vx.Config("diam.answerMayBeLate", false)
 	vx.Config("diam.answerMayBeLost", false)
+	vx.Config("sched.timersFire", false)
 	rsp, err2 := rating.SendServiceUsageRequest(ue, mk(2))
 	vx.Assert("second service-usage request completes with an answer", err2 == nil && rsp != nil)
 	if err2 == nil && rsp != nil {
 		vx.Assert("the answer acted on belongs to the second request (session id echoed)", rsp.SessionId == "s2")
 	}
 }
+
+// Known-finding region: the first request's answer had reached the
+// subscriber's channel at the moment its 5 s timer fired (select took the
+// timer); the answer stays queued for the subscriber.
+func ZZ_C19_regionAnswerRacedTimer(stale bool) bool { return stale }
